@@ -32,6 +32,7 @@ let apply_probe (p : string) (s : n list) : n list =
   match p.[0] with
   | 't' -> take (int_of_string arg) s
   | 'x' -> s @ List.init (int_of_string arg) (fun i -> n_of_int ((i * 37 + 11) land 255))
+  | 'j' -> List.map (fun c -> n_of_int (Char.code c)) (List.init (String.length arg + 11) (String.get ("{\"forged\":" ^ arg ^ "}")))
   | 'f' ->
     let i = String.index arg '.' in
     let pos = int_of_string (String.sub arg 0 i) in
